@@ -186,3 +186,60 @@ func HarnessC02CodedErrorWrappingContext() {
 	}
 	c02CheckError(err, code, e.Message(), "X-Err-Meta", "m3")
 }
+
+// c02Wrapper wraps an error the way fmt.Errorf("...: %w", err) does.
+type c02Wrapper struct {
+	prefix string
+	err    error
+}
+
+func (w *c02Wrapper) Error() string { return w.prefix + ": " + w.err.Error() }
+func (w *c02Wrapper) Unwrap() error { return w.err }
+
+// HarnessC02WrappedCodedError: a handler (or an interceptor on its way out)
+// returns a coded error wrapped in another error.  The coded error inside is
+// what the handler meant: its code, message and metadata must reach the
+// client - unary and streaming, three protocols - not "unknown" with the
+// wrapper's text.
+//
+//verif:harness property=C02 stubs=json,wire shard=proto:3
+func HarnessC02WrappedCodedError() {
+	proto := nondetChoice("proto", 3)
+	code := Code(nondetUint32("code"))
+	assume(code >= 1 && code <= 16)
+	inner := NewError(code, errors.New("inner"))
+	inner.Meta().Set("X-Err-Meta", "m4")
+	var herr error = &c02Wrapper{prefix: "audit", err: inner}
+	if nondetBool("twice") {
+		herr = &c02Wrapper{prefix: "outer", err: herr}
+	}
+	if nondetBool("stream") {
+		handler := NewServerStreamHandler("/pkg.Svc/Method", func(ctx context.Context, req *Request[[]byte], stream *ServerStream[[]byte]) error {
+			return herr
+		}, stackHandlerOptions()...)
+		client := NewClient[[]byte, []byte](&stackTransport{handler: handler}, stackURL, stackClientOptions(proto)...)
+		in := []byte{1}
+		stream, err := client.CallServerStream(context.Background(), NewRequest(&in))
+		check(err == nil, "starting the stream succeeds")
+		if err != nil {
+			return
+		}
+		for stream.Receive() {
+			check(false, "no message was sent")
+			break
+		}
+		serr := stream.Err()
+		check(serr != nil, "the stream fails")
+		if serr != nil {
+			c02CheckError(serr, code, "inner", "X-Err-Meta", "m4")
+		}
+		_ = stream.Close()
+		return
+	}
+	tr, err := c02UnaryCall(proto, herr)
+	if err == nil {
+		return
+	}
+	c02CheckError(err, code, "inner", "X-Err-Meta", "m4")
+	c02CheckStatus(proto, tr, code)
+}
